@@ -1539,9 +1539,9 @@ def run_histories(ctx, tools, cnt, corpus_hist, samples):
     htools = HistTools(ctx, tools)
     state = {'reported': 0, 'tie_notes': 0, 'model_diffs': 0}
     total = 0
-    nworlds = ctx.n(6, 60)
-    nhist = ctx.n(14, 40)
-    length = ctx.n(26, 40)
+    nworlds = ctx.n(10, 60)
+    nhist = ctx.n(16, 40)
+    length = ctx.n(28, 40)
     worlds = [dict(c) for c in corpus_hist]
     for _ in range(nworlds):
         worlds.append({'wseed': ctx.rng.getrandbits(32), 'nns': ctx.rng.randint(2, 6)})
